@@ -132,6 +132,13 @@ func (s *LinkedLog) ReadWithSize(offset uint64, size uint64) ([]OffsetAndSizeAnd
 		return nil, indexes.OffsetAndSize{}, fmt.Errorf("compacted indexes length too large: %d", size)
 	}
 	// debugln("compactedIndexesLen:", compactedIndexesLen)
+	// The record must lie inside the file: `size` comes from an index (or, in Read, from the file itself) and
+	// must not make us allocate a buffer for bytes that cannot be there.
+	if fileSize, err := s.getCurrentOffset(); err != nil {
+		return nil, indexes.OffsetAndSize{}, err
+	} else if offset > fileSize || size > fileSize-offset {
+		return nil, indexes.OffsetAndSize{}, fmt.Errorf("record at offset %d with size %d lies outside the file (%d bytes)", offset, size, fileSize)
+	}
 	// Read the whole record: uvarint(payloadLen) | compressed indexes | offset and size of the previous list.
 	record := make([]byte, size)
 	_, err := s.file.ReadAt(record, int64(offset))
